@@ -220,6 +220,12 @@ func (evkg EvaluationKeyGenProtocol) AggregateShares(share1, share2 EvaluationKe
 		return fmt.Errorf("cannot AggregateShares: share LevelP do not match")
 	}
 
+	if share1.BaseTwoDecomposition != share2.BaseTwoDecomposition ||
+		!slices.Equal(share1.BaseTwoDecompositionVectorSize(), share2.BaseTwoDecompositionVectorSize()) ||
+		!slices.Equal(share1.BaseTwoDecompositionVectorSize(), share3.BaseTwoDecompositionVectorSize()) {
+		return fmt.Errorf("cannot AggregateShares: share decompositions do not match")
+	}
+
 	m1 := share1.Value
 	m2 := share2.Value
 	m3 := share3.Value
